@@ -99,6 +99,7 @@ pub fn base_cfg(prop: &'static str, k: u32, prios: &[i32], alphabet: u32) -> Cfg
         record_costs: false,
         merge_check: std::env::var_os("PQMC_MERGE").is_some(),
         large: false,
+        lean: false,
     }
 }
 
@@ -534,7 +535,9 @@ pub fn run_probe_property<H: HB>(prop: &'static str, tier: Tier) -> Outcome {
         // extend on both strategies / append), then the iterator programs (structured family)
         let dname = if prop == "C06" { "C06d" } else { "C13d" };
         for n in if q && prop == "C13" { vec![8usize, 16] } else if q { vec![6usize, 7, 8, 16, 17] } else { vec![6, 7, 8, 9, 10, 15, 16, 17, 31, 32, 33] } {
-            let mut c = seeds_cfg(prop, n, &REL_BIN, A_REACH | A_EXTEND | A_APPEND | A_PUSH_INCDEC);
+            // (C06: also in-place mutation through iter_mut, incl. two writes at every pair of positions
+            // with the iterator dropped early, and retain, before the sorted consumption)
+            let mut c = seeds_cfg(prop, n, &REL_BIN, A_REACH | A_EXTEND | A_APPEND | A_PUSH_INCDEC | if prop == "C06" && n <= 10 { A_ITER_MUT | A_ITER_MUT_BACK | A_RETAIN } else { 0 });
             c.deep = false;
             let seeds = if n <= 8 { f_bin(n) } else if q || n > 17 { f_struct(n) } else { f_seg(n) };
             let uni = c.universe();
@@ -882,6 +885,8 @@ pub fn run_c10<H: HB>(tier: Tier) -> Outcome {
         let mut fault_cfg = cfg.clone();
         let deep = cfg.k > 6;
         fault_cfg.alphabet = if deep { fault_alpha & !(A_CAPACITY | A_BORROWED) } else { fault_alpha };
+        // quick tier, deep seeds: the breadth families stay out of the fault layer (the thorough tier has them)
+        fault_cfg.lean = q && deep;
         let big = cfg.k == 4;
         let e3cfg = E3Cfg { prop, fault_cfg, cont_cfg, max_faults: if q || deep || big { 1 } else { 2 }, depth: if deep { 1 } else if q || big { 2 } else { 3 }, threads: threads(), max_states: if q { 3_000_000 } else { 40_000_000 }, max_wall_s: if q { 40.0 } else { 600.0 } };
         let e3 = E3::<H>::new(&e3cfg);
